@@ -84,6 +84,7 @@ class ED_Solver(ExactSolver):
         self.Fr = prob.C0 * prob.ar * prob.Tref**4 * prob.ED_profile.Fr
         self.Tm = prob.Tref * prob.ED_profile.Tm
         self.Density = prob.rho0 * prob.ED_profile.Density
+        self.sound = prob.sound
         self.Speed = prob.sound * prob.ED_profile.Speed
         self.Mach = prob.ED_profile.Mach
         self.Pressure = prob.rho0 * prob.sound**2 * prob.ED_profile.Pressure
@@ -203,6 +204,7 @@ class nED_Solver(ExactSolver):
         self.Tr = prob.Tref * prob.nED_profile.Tr
         self.Fr = prob.C0 * prob.ar * prob.Tref**4 * prob.nED_profile.Fr
         self.Density = prob.rho0 * prob.nED_profile.Density
+        self.sound = prob.sound
         self.Speed = prob.sound * prob.nED_profile.Speed
         self.Mach = prob.nED_profile.Mach
         self.Pressure = prob.rho0 * prob.sound**2 * prob.nED_profile.Pressure
@@ -325,6 +327,7 @@ class Sn_Solver(ExactSolver):
         self.Tr = prob.Tref * prob.Sn_profile.Tr
         self.Fr = prob.C0 * prob.ar * prob.Tref**4 * prob.Sn_profile.Fr
         self.Density = prob.rho0 * prob.Sn_profile.Density
+        self.sound = prob.sound
         self.Speed = prob.sound * prob.Sn_profile.Speed
         self.Mach = prob.Sn_profile.Mach
         self.Pressure = prob.rho0 * prob.sound**2 * prob.Sn_profile.Pressure
@@ -429,6 +432,7 @@ class ie_Solver(ExactSolver):
         self.Tm = prob.Tref * prob.IE_profile.Tm
         self.Te = prob.Tref * prob.IE_profile.Te
         self.Density = prob.rho0 * prob.IE_profile.Density
+        self.sound = prob.sound
         self.Speed = prob.sound * prob.IE_profile.Speed
         self.Mach = prob.IE_profile.Mach
         self.Pressure = prob.rho0 * prob.sound**2 * prob.IE_profile.Pressure
